@@ -13,7 +13,8 @@ one post-construction state (+ the measured string widths), in the encoding of `
    "holds": b}
 
 `holds` = the statement of the theorem on this input: not (accepted ∧ shapes ∧ measure_ok), or the model returns a
-document, or it raises `ValueError` and the keys are not contiguous.  It is `true` on every input (that is the
+document and the keys are contiguous, or it raises `ValueError` and the keys are not contiguous (the refusal is decided
+by the data alone: `C01_encode_refused_iff`, `C01_encodeM_refused_iff` of `Props/C01totalmore.lean`).  It is `true` on every input (that is the
 theorem); the harness asserts it, so a driver / model that no longer satisfies the statement is seen at run time too.
 
 Likewise for `Props/C01totalmore.lean`:
@@ -38,7 +39,7 @@ def opEncodeTotal (j : Json) : R Json := do
   let res := match encode measure d with
     | .ok _ => "ok"
     | .error e => e
-  let holds := !(acc && shp && mok) || res == "ok" || (res == "ValueError" && !contig)
+  let holds := !(acc && shp && mok) || (res == "ok" && contig) || (res == "ValueError" && !contig)
   return Json.mkObj [("accepted", Json.bool acc), ("shapes", Json.bool shp), ("measure_ok", Json.bool mok),
     ("contiguous", Json.bool contig), ("requests", Json.num (JsonNumber.fromNat (requests d).length)),
     ("result", Json.str res), ("holds", Json.bool holds)]
@@ -54,7 +55,7 @@ def opEncodeTotalMulti (j : Json) : R Json := do
   let res := match Model.EncodeMulti.encodeM measure d with
     | .ok _ => "ok"
     | .error e => e
-  let holds := !(acc && shp && mok) || res == "ok" || (res == "ValueError" && !contig)
+  let holds := !(acc && shp && mok) || (res == "ok" && contig) || (res == "ValueError" && !contig)
   return Json.mkObj [("accepted", Json.bool acc), ("shapes", Json.bool shp), ("measure_ok", Json.bool mok),
     ("contiguous", Json.bool contig),
     ("requests", Json.num (JsonNumber.fromNat (Model.EncodeAcceptedMore.requestsM d).length)),
